@@ -1504,6 +1504,29 @@ def propagate_record_locals(repo, f):
     The construction stays if t is still mentioned (passed on, returned, method called on it)."""
     from .normalize import record_fields
     changed = False
+    # K(args).method(..) in an assignment / expression statement / return: the record gets a name first
+    def name_temporaries(stmts):
+        nonlocal changed
+        out = []
+        for s_ in stmts:
+            for fld in ("body", "orelse", "finalbody"):
+                sub = getattr(s_, fld, None)
+                if isinstance(sub, list) and sub and isinstance(sub[0], ast.stmt) and not isinstance(s_, (ast.FunctionDef, ast.AsyncFunctionDef, ast.ClassDef)):
+                    setattr(s_, fld, name_temporaries(sub))
+            if isinstance(s_, ast.Try):
+                for h in s_.handlers:
+                    h.body = name_temporaries(h.body)
+            v = getattr(s_, "value", None) if isinstance(s_, (ast.Assign, ast.Expr, ast.Return)) else None
+            if isinstance(v, ast.Call) and isinstance(v.func, ast.Attribute) and isinstance(v.func.value, ast.Call) and isinstance(v.func.value.func, ast.Name) \
+                    and record_fields(repo, f.mod, v.func.value.func.id, allow_methods=True) is not None:
+                k = sum(1 for x in ast.walk(f.node) if isinstance(x, ast.Name) and x.id.startswith("record__r"))
+                t_ = f"record__r{k}"
+                out.append(ast.copy_location(ast.Assign(targets=[ast.Name(id=t_, ctx=ast.Store())], value=v.func.value, lineno=s_.lineno), s_))
+                v.func.value = ast.Name(id=t_, ctx=ast.Load())
+                changed = True
+            out.append(s_)
+        return out
+    f.node.body = name_temporaries(f.node.body)
     binds = {}
     for x in ast.walk(f.node):
         if isinstance(x, ast.Name) and isinstance(x.ctx, (ast.Store, ast.Del)):
@@ -1542,9 +1565,37 @@ def propagate_record_locals(repo, f):
         if not stable:
             continue
         if not is_nt:
-            if any(not (isinstance(par.get(u), ast.Attribute) and par[u].value is u and isinstance(par[u].ctx, ast.Load) and par[u].attr in fields) for u in uses):
+            if any(not (isinstance(par.get(u), ast.Attribute) and par[u].value is u and isinstance(par[u].ctx, ast.Load)) for u in uses):
                 continue
         disp = lambda: ast.Tuple(elts=[copy.deepcopy(vals[fl]) for fl in fields], ctx=ast.Load())
+        # @property members of the record whose body is one return expression over self.<field> / other such properties
+        props = {}
+        pdefs = {m.name: m for m in cn.body if isinstance(m, ast.FunctionDef) and any(U(d) == "property" for d in m.decorator_list)}
+        for _ in range(3):
+            for pname, m in pdefs.items():
+                if pname in props:
+                    continue
+                body_ = [b for b in m.body if not (isinstance(b, ast.Expr) and isinstance(b.value, ast.Constant))]
+                if len(body_) != 1 or not isinstance(body_[0], ast.Return) or body_[0].value is None or len(m.args.args) != 1:
+                    continue
+                sname = m.args.args[0].arg
+                ok_ = True
+
+                class PS(ast.NodeTransformer):
+                    def visit_Attribute(self, n2):
+                        nonlocal ok_
+                        self.generic_visit(n2)
+                        if isinstance(n2.value, ast.Name) and n2.value.id == sname:
+                            if n2.attr in vals:
+                                return copy.deepcopy(vals[n2.attr])
+                            if n2.attr in props:
+                                return copy.deepcopy(props[n2.attr])
+                            ok_ = False
+                        return n2
+                e_ = PS().visit(copy.deepcopy(body_[0].value))
+                if ok_ and not any(isinstance(x, ast.Name) and x.id == sname for x in ast.walk(e_)) \
+                        and not any(isinstance(x, (ast.Call, ast.Yield, ast.Await, ast.Lambda)) for x in ast.walk(e_)):
+                    props[pname] = e_
 
         class RW(ast.NodeTransformer):
             hit = False
@@ -1554,6 +1605,9 @@ def propagate_record_locals(repo, f):
                 if isinstance(n.value, ast.Name) and n.value.id == t and isinstance(n.ctx, ast.Load) and n.attr in fields:
                     RW.hit = True
                     return copy.deepcopy(vals[n.attr])
+                if isinstance(n.value, ast.Name) and n.value.id == t and isinstance(n.ctx, ast.Load) and n.attr in props:
+                    RW.hit = True
+                    return copy.deepcopy(props[n.attr])
                 return n
 
             def visit_Subscript(self, n):
@@ -2207,6 +2261,10 @@ def has_constant_structure(repo, f):
             return True
         if isinstance(n, ast.Call) and U(n.func) in ("functools.reduce", "reduce", "slice"):
             return True
+        if isinstance(n, ast.Call) and isinstance(n.func, ast.Name) and n.func.id[:1].isupper() or (isinstance(n, ast.Call) and isinstance(n.func, ast.Name) and n.func.id.startswith("_") and n.func.id[1:2].isupper()):
+            from .normalize import record_fields
+            if record_fields(repo, f.mod, n.func.id, allow_methods=True) is not None:
+                return True
         if isinstance(n, ast.Call) and isinstance(n.func, ast.Attribute) and n.func.attr == "update" and isinstance(n.func.value, ast.Attribute) and n.func.value.attr == "__dict__":
             return True
         if isinstance(n, ast.Compare) and len(n.ops) == 1 and isinstance(n.ops[0], (ast.In, ast.NotIn)) and isinstance(n.left, ast.Constant) \
@@ -2246,7 +2304,7 @@ def partial_evaluate(repo, max_rounds=8):
             if (steps or q in getattr(repo, "inlined", {})) and scalarise_display_locals(f, counter):
                 ch = True
                 steps.append("displays")
-            if (steps or q in getattr(repo, "inlined", {})) and propagate_record_locals(repo, f):
+            if propagate_record_locals(repo, f):
                 ch = True
                 steps.append("records")
             if unroll_loops(repo, f, counter):
